@@ -561,15 +561,13 @@ func damagedOutputOverlay(filename string) map[string][]byte {
 		if overlay == nil {
 			overlay = make(map[string][]byte)
 		}
-		// The file's own output stands in for it under the source's build constraint: an unconstrained
-		// file would become the whole package in a configuration that excludes the source.
+		// A stand-in is loaded under the build constraint of the file being processed: an unconstrained
+		// file would become the whole package in a configuration that excludes that file.
 		constraintLine := ""
-		if outputPath == ownOutput {
-			for _, group := range source.Comments {
-				for _, c := range group.List {
-					if group.Pos() < source.Package && constraint.IsGoBuild(c.Text) {
-						constraintLine = c.Text + "\n\n"
-					}
+		for _, group := range source.Comments {
+			for _, c := range group.List {
+				if group.Pos() < source.Package && constraint.IsGoBuild(c.Text) {
+					constraintLine = c.Text + "\n\n"
 				}
 			}
 		}
